@@ -40,6 +40,9 @@ def run_one(tape, opts):
     c.handlers = False
     c.kinds = tuple(k for k in c.kinds if k != "user")
     flavour = tape.choice("config", ("extended", "testtools", "none"), "flavour")
+    if opts.get("tier") == "thorough":
+        c.max_ops += 2
+        c.max_cleanups += 2
     runner = lc.draw_runner(tape)
     if runner != "plain":
         c.skip_decorators = False     # what @skip does to setUp/tearDown under the Twisted runners is not in any property
